@@ -217,6 +217,7 @@ fn json_range_probe(a: &[String]) -> tantivy::Result<bool> {
     Ok(searcher.segment_readers().len() == 1 && matched == should)
 }
 
+mod probe_bg_merge;
 mod probe_update_merge;
 
 fn main() -> tantivy::Result<()> {
@@ -227,6 +228,9 @@ fn main() -> tantivy::Result<()> {
         let ok = match name {
             "update_survives_uncommitted_merge" => {
                 std::panic::catch_unwind(|| matches!(probe_update_merge::run(), Ok(()))).unwrap_or(false)
+            }
+            "uncommitted_delete_not_published_by_background_merge" => {
+                std::panic::catch_unwind(|| matches!(probe_bg_merge::run(), Ok(()))).unwrap_or(false)
             }
             _ => false,
         };
